@@ -21,7 +21,8 @@ class C05(Prop):
                   "number of threads and programs). (1) C05_sequential_bag / C05_sequential_call: any sequence of complete push / data_with / "
                   "clear_with / is_empty calls by any threads refines a bag kept as the list of block contents (push adds exactly its value, "
                   "data_with hands out everything in chain order, clear_with hands out everything and empties, is_empty iff nothing is stored); "
-                  "the run of a call alone is unique. (2) every schedule, per-block protocol: below the write index a slot is published or "
+                  "the run of a call alone is unique; C05_sequential_record_many: the HistogramFn entry point record_many(v, n) - run by the machine as n "
+                  "consecutive push calls - adds exactly n copies, n = 0 nothing (record = push). (2) every schedule, per-block protocol: below the write index a slot is published or "
                   "claimed by exactly one thread in flight, at or above it untouched (the write index counts the claims, claims are unique per "
                   "block and index); a published bit implies a written slot; the publishing thread finds its own value in its slot; the read at "
                   "site 506 hands out written slots below the published length only. (3) every schedule, chains: the chain from tail is finite, "
@@ -70,7 +71,8 @@ class C05(Prop):
             "hand-over | snapshot}, {2 clearers | pusher}, plus is_empty callers; two in five cases start with a sequential prefix of 62-64 "
             "pushes by one thread so that the raced suffix runs across block hand-over; schedules uniform, bursty or with out-of-range "
             "indices, followed by the round-robin tail; non-trivial = a read (snapshot/clear/is_empty) overlapped a push; distinct = distinct "
-            "(programs, executed trace)")
+            "(programs, executed trace); one case in eight is a single-threaded run through the HistogramFn entry points of an AtomicBucket<f64> "
+            "(record, record_many with counts 0, 1, 2, 63, 64, 65 and up to ~320, via metrics::Histogram::from_arc handles and via the trait) mixed with reads")
     assumptions = ["SC memory model", "yield hooks placed before each shared-memory access of bucket.rs", "BLOCK_SIZE = 64 (64-bit target)"]
     trusted_extra = ["harness/sched deterministic scheduler", "stress oracle in harness/hcore/src/bin/c05.rs (logical-clock overlap test for the late-claim excuse)", "crossbeam-epoch reclamation (exercised with drop counters, not modelled)"]
 
